@@ -10,6 +10,7 @@ permutation x metric/tree x leaf size x query sequences over 3 positions x
 radii (numbers and every unit name). Part "large" (c06_large.py): regular
 grids of 200 and 5000 points with the structured permutation family. Part
 "many" (c06_many.py): one call with n query points for every n up to a bound.
+Part "history" (c06_history.py): several indexes alive at once.
 """
 import itertools
 import math
@@ -20,7 +21,8 @@ driver.setup_env()
 
 import numpy as np                                    # noqa: E402
 
-from checks import c06_large, c06_many, c06_model as model   # noqa: E402
+from checks import (c06_history, c06_large, c06_many,   # noqa: E402
+                    c06_model as model)
 
 PROP = "C06"
 LEVEL = "exploration"
@@ -47,7 +49,7 @@ RULE = ("Small part: build arrays = every sequence (with repetition) of "
         "km), and with these two numbers. One evaluation = one query() "
         "call; all are distinct inputs by construction. Non-trivial = at "
         "least one pair is expected.")
-RULE += " " + c06_large.RULE + " " + c06_many.RULE
+RULE += " " + c06_large.RULE + " " + c06_many.RULE + " " + c06_history.RULE
 ASSUMPTIONS = [
     "the Earth is the sphere of radius typhon.constants.earth_radius",
     "lat, lon are passed as float64 numpy arrays (lists and scalars are "
@@ -197,7 +199,7 @@ def shards(tier, seed):
         nchunks = min(len(build_inputs(part)), math.ceil(total / 60000))
         out += [("small", part, k, nchunks) for k in range(nchunks)]
     return out + c06_large.shards(tier, seed) + \
-        c06_many.shards(tier, seed)
+        c06_many.shards(tier, seed) + c06_history.shards(tier, seed)
 
 
 class Small:
@@ -290,6 +292,8 @@ def run_shard(shard):
             c06_large.run(res, seam, shard, replay)
         elif shard[0] == "many":
             c06_many.run(res, seam, shard, replay)
+        elif shard[0] == "history":
+            c06_history.run(res, seam, shard, replay)
         else:
             run_small(res, seam, shard)
     return res
@@ -321,6 +325,8 @@ def replay(case):
             bad = c06_large.replay(seam, case)
         elif case["part"] == "many":
             bad = c06_many.replay(seam, case)
+        elif case["part"] == "history":
+            bad = c06_history.replay(seam, case)
         else:
             bad = replay_small(seam, case)
     if bad is None:
